@@ -198,16 +198,9 @@ func init() {
 					Params: map[string]string{"step": fmt.Sprint(st), "stepname": name, "kind": "2", "otherround": "1", "arb_len": "1", "tag": fmt.Sprintf("c18air%d_o", st)}})
 			}
 		}
-		if cr.Tier == "thorough" {
-			for i := range tj {
-				if tj[i].Fn == "VF_Air_Arbitrary" {
-					tj[i].Params["nullkinds"] = "3"
-				}
-			}
-		}
 		tr := cr.Pool.Run(tj)
 		cr.absorb(tj, tr)
-		cr.bounds["airgapped_payload_lists"] = "every mutant payload list as built or with a null entry appended (thorough: also with a null entry first)"
+		cr.bounds["airgapped_payload_lists"] = "null entries inside airgapped payload lists are NOT explored (an attempt made the solver run away and was withdrawn, DESIGN 9.8); null entries in the opening proposal are"
 		cr.bounds["signing_tasks"] = "1 task (thorough: 1..2), each explicit (payload 0..1 bytes) or a baked range with symbolic int bounds: any range starting outside the list, ranges of length <= 2 starting in the first 64 or last 2 positions"
 		cr.explanation = "No Go run-time panic on any feasible path of ProcessMessage for any event, any decoded request value, any sender, in each representative reachable round state (panics are found by the executor as feasible panic paths and replayed natively); a rejected message leaves every durable blob except the offset byte-identical."
 	}}
